@@ -298,19 +298,21 @@ def run_abortable(ctx, exe, lines):
                          'why': why[:300], 'line': lines[start][:400]})
             start += 1
             aborts += 1
-            if aborts > 25:
-                raise vlib.MachineryError('driver keeps dying: ' + r.stderr[-800:])
+            if aborts >= 12:          # enough witnesses: the remaining inputs are not evaluated
+                ctx.notes.append('stopped after %d aborts; %d inputs not evaluated' % (aborts, len(lines) - start))
+                break
     return outs
 
 
 def run(ctx):
     exe = ucheck.build_like_test(ctx, 'dns', 'testHttp1Parser', ['u_dns.cc', 'uhelp.cc'],
                                  add=['src/SquidConfig.cc', 'src/dns/rfc1035.cc', 'src/dns/rfc2671.cc', 'src/dns/rfc3596.cc'])
-    res = vlib.tlc_must_pass(ctx, os.path.join(SPEC, 'MC_DnsMsg.tla'), os.path.join(SPEC, 'MC_DnsMsg.cfg'), timeout=900, label='mc')
+    res = vlib.tlc_must_pass(ctx, os.path.join(SPEC, 'MC_DnsMsg.tla'), os.path.join(SPEC, 'MC_DnsMsg_thorough.cfg' if ctx.thorough else 'MC_DnsMsg.cfg'),
+                             timeout=1500, label='mc')
     enc = []
     seen = set()
-    for m in re.finditer(r'<<"ENC", <<([0-9,\s]*)>>\s*>>', res.out):
-        b = bytes(int(x) for x in m.group(1).replace('\n', ' ').split(',') if x.strip())
+    for m in re.finditer(r'enc\\?":\[([0-9,]*)\]', res.out):
+        b = bytes(int(x) for x in m.group(1).split(',') if x)
         if b not in seen:
             seen.add(b)
             enc.append(b)
@@ -327,6 +329,8 @@ def run(ctx):
     lines = ['u %s' % hx(b) for b, _t in cases] + gen_queries(ctx)
     ctx.log('driver built; %d datagrams + %d query builds' % (len(cases), len(lines) - len(cases)))
     outs = run_abortable(ctx, exe, lines)
+    lines = lines[:len(outs)]
+    os.environ['_JAVA_OPTIONS'] = '-Xss16m'          # names of 127 labels / long chains: give TLC's evaluator stack room
     prej, irej = ucheck.conformance(ctx, os.path.join(SPEC, 'Conf_DnsMsg.tla'), os.path.join(SPEC, 'Conf_DnsMsg.cfg'), outs, 'dns', chunk=1500)
     ctx.log('TLC evaluated %d calls: P-rejected %d, I-rejected %d' % (len(outs), len(prej), len(irej)))
     shown = {}
@@ -366,7 +370,7 @@ def run(ctx):
     ctx.cov['records_decoded'] = sum(len(o['msg']['rr']) for o in outs if o.get('has'))
     ctx.cov['aborts'] = sum(1 for o in outs if o.get('abort'))
     ctx.cov['ub_reports'] = sum(1 for o in outs if o.get('ub'))
-    for j in (0, len(cases) // 2, len(outs) - 1):
+    for j in (0, min(len(cases) // 2, len(outs) - 1), len(outs) - 1):
         o = outs[j]
         ctx.sample({'fn': o['fn'], 'datagram': bytes(o['b']).hex()[:120], 'ret': o.get('ret'), 'err': o.get('err'),
                     'question': bytes(o['msg']['q']['name']).decode('latin-1') if o.get('has') else None})
